@@ -4,7 +4,7 @@ overwritten by the value returned with the error and re-sent — is modelled in 
 checked against the model only). Lock-step on the virtual clock against `oracle timed`."""
 import itertools
 import lockstep as ls
-from checks import C11
+from checks import C11, C07_openin
 
 
 def emit_case(rng, mode, cap, fail, order, n=5, freq=1000):
@@ -40,7 +40,10 @@ def gen(rng, thorough):
                     for mode in ("lift", "try"):
                         n = cap + 8
                         sc.append(C11.unfold_script(rng, cap, fn, seed, mode, fail, n, cancel_at=n if mode == "try" else None, sched="c07"))
-    return sc
+    # kind of the error the failing calls return (cfg key ek=, go/harness/lockstep/errkinds_test.go): about half of the
+    # scripts keep plain errors, the others return errors wrapping context.Canceled / context.DeadlineExceeded while the
+    # pipeline context is alive; tokens and therefore the model comparison (`oracle timed`) are unchanged
+    return [C07_openin.with_kind(s, C07_openin.pick_kind(rng)) for s in sc]
 
 
 def run_extra(ctx):
@@ -50,5 +53,6 @@ def run_extra(ctx):
         if tr is not None:
             c = C11.cfg_of(tr)
             ctx.hist("mode", c["mode"])
+            ctx.hist("error_kind", tr.cfg.get("ek", "plain"))
             ctx.hist("failing", len(c["fail"]))
             ctx.count(s, nontrivial=len(c["fail"]) > 0 and (bool(tr.recv.get(0)) or bool(tr.recv.get(1))))
